@@ -25,6 +25,7 @@ RULE = (
     "distinct by input bytes."
 )
 ASSUMPTIONS = [
+    "unbounded allocation is semi-decided: an allocation that exceeds the worker's 4 GiB address-space limit fails with MemoryError and is reported like any escaping exception, bucketed by the parser function that asked for the memory (a tighter per-call limit was tried and withdrawn: under a cap of a few hundred MiB amoco's own error paths start failing and the campaign is no longer deterministic)",
     "non-termination is semi-decided: a call still running after 10 s (normal calls take milliseconds) is reported",
     "COFF has almost no magic: raw data returned as COFF is not a violation (only counted)",
 ]
@@ -62,7 +63,18 @@ def classify(data):
     except visa.HarnessTimeout as t:
         return ("hang", (t.args[0] if t.args else "") or "?")
     except MemoryError as x:
-        return ("exc", bucket_of_exception("escape", x), "MemoryError")
+        # bucket by the parser function that asked for the memory (the generic structure unpackers are skipped)
+        import sys
+        import traceback
+
+        site = ""
+        for t in reversed(traceback.extract_tb(sys.exc_info()[2])):
+            if "/amoco/" in t.filename:
+                rel = t.filename.split("/amoco/", 1)[1]
+                if not rel.startswith("system/structs/") and rel != "system/core.py":
+                    site = "%s:%s" % (rel, t.name.lstrip("_"))
+                    break
+        return ("exc", "escape:MemoryError:%s" % (site or "?"), "MemoryError (allocation beyond the address-space limit for a %d byte input)" % len(data))
     except Exception as x:
         return ("exc", bucket_of_exception("escape", x), repr(x)[:300])
 
@@ -167,14 +179,53 @@ def elf_field_mutation(rnd, base):
                 for k, (o, w) in syf.items():
                     cands.append((s_["sh_offset"] + j * s_["sh_entsize"] + o, w))
     cands = [(o, w) for o, w in cands if o + w <= n]
+    # the size / entry size / offset / link of table sections (symbols, relocations, dynamic, strings) decide how much is read
+    tables = []
+    for j in range(min(ref["e_shnum"], 64) if ref["e_shoff"] else 0):
+        if j < len(ref["shdr"]) and ref["shdr"][j]["sh_type"] in (2, 3, 4, 6, 9, 11):
+            for k in ("sh_size", "sh_entsize", "sh_offset", "sh_link"):
+                o, w = shf[k]
+                tables.append((ref["e_shoff"] + j * ref["e_shentsize"] + o, w))
+    tables = [(o, w) for o, w in tables if o + w <= n]
     for _ in range(rnd.randrange(1, 4)):
-        o, w = cands[rnd.randrange(len(cands))]
+        from_table = bool(tables) and rnd.random() < 0.35
+        o, w = tables[rnd.randrange(len(tables))] if from_table else cands[rnd.randrange(len(cands))]
         old = int.from_bytes(b[o: o + w], "little" if e == "<" else "big")
         top = (1 << (8 * w)) - 1
         vals = [0, 1, 2, 0xFF, top, top >> 1, (top >> 1) + 1, n, n - 1, n + 1, old + 1, old * 16, (0x7F << (8 * w - 8)) | old, old | (1 << (8 * w - 1)), rnd.getrandbits(8 * w)]
+        if from_table and rnd.random() < 0.5:
+            # huge values that keep the low bits (still a multiple of the entry size, still inside alignment checks)
+            vals = [(0x7F << (8 * w - 8)) | old, old | (1 << (8 * w - 1)), old + (1 << (8 * w - 4)), old + (1 << (8 * w - 12)), old + (1 << 28)]
         v = vals[rnd.randrange(len(vals))] & top
         b[o: o + w] = v.to_bytes(w, "little" if e == "<" else "big")
     return bytes(b)
+
+
+def tighten_memory(extra=256 << 20):
+    """address-space limit = what this worker uses now + 256 MiB: an allocation unrelated to the input size (the inputs are
+    at most a few hundred KiB) becomes a MemoryError, which is reported like any other escaping exception"""
+    import resource
+
+    try:
+        with open("/proc/self/statm") as f:
+            cur = int(f.read().split()[0]) * resource.getpagesize()
+        soft, hard = resource.getrlimit(resource.RLIMIT_AS)
+        lim = cur + extra
+        if hard != resource.RLIM_INFINITY:
+            lim = min(lim, hard)
+        resource.setrlimit(resource.RLIMIT_AS, (lim, hard))
+    except Exception:
+        pass
+
+
+def relax_memory():
+    import resource
+
+    try:
+        soft, hard = resource.getrlimit(resource.RLIMIT_AS)
+        resource.setrlimit(resource.RLIMIT_AS, (hard, hard))
+    except Exception:
+        pass
 
 
 def run_shard(shard, tier, seed):
